@@ -107,7 +107,11 @@ func execVec(a []Tok) string {
 		return fmtFs(vec.Logspace(a[1].F(), a[2].F(), a[3].Int(), a[4].F()))
 	case "concat":
 		var xss [][]float64
-		for _, t := range a[1].Arr {
+		for i, t := range a[1].Arr {
+			if i > 0 && sameTok(t, a[1].Arr[i-1]) { // the same slice passed again
+				xss = append(xss, xss[i-1])
+				continue
+			}
 			xss = append(xss, t.Fs())
 		}
 		return fmtFs(vec.Concat(xss...))
@@ -143,6 +147,16 @@ func smpValues(rng *rand.Rand, n int, positive bool) []float64 {
 		xs[rng.Intn(n)] = 0
 		if rng.Intn(2) == 0 {
 			xs[n-1] = 0
+		}
+	}
+	if rng.Intn(12) == 0 { // large whole numbers (exact in float64, huge sums of squares)
+		step := float64([]int{3000, 300000, 1 << 20, 7}[rng.Intn(4)])
+		base := float64([]int{0, 0, 1000000000, -5000}[rng.Intn(4)])
+		for i := range xs {
+			xs[i] = base + step*float64(rng.Intn(4*n+1))
+			if positive {
+				xs[i] = math.Abs(xs[i]) + 1
+			}
 		}
 	}
 	if n > 2 && rng.Intn(3) == 0 { // repeats
@@ -259,8 +273,11 @@ func genSmpHistory(w *bufio.Writer, rng *rand.Rand, maxN int, quantOnly bool) {
 			case 0: // exact break points h integer: q = (j - 1/3)/(n + 1/3)
 				j := float64(rng.Intn(n + 2))
 				q = (j - 1.0/3) / (float64(n) + 1.0/3)
-				if rng.Intn(2) == 0 {
+				switch rng.Intn(3) {
+				case 0:
 					q = math.Nextafter(q, float64(rng.Intn(2)*2-1))
+				case 1: // a tiny distance from the break point, far beyond rounding distance
+					q += math.Pow(10, -float64(8+rng.Intn(7))) * float64(rng.Intn(2)*2-1)
 				}
 			case 1:
 				q = []float64{0, 1, -0.5, 1.5, 0.25, 0.5, 0.75}[rng.Intn(7)]
@@ -314,12 +331,19 @@ func genC09(w *bufio.Writer, tier string, rng *rand.Rand) {
 			if rng.Intn(2) == 0 {
 				lo, hi = rng.NormFloat64()*3, rng.NormFloat64()*3
 			}
+			if rng.Intn(4) == 0 { // exponents a tiny distance from whole numbers
+				lo += math.Pow(10, -float64(7+rng.Intn(6))) * float64(rng.Intn(3)-1)
+				hi = math.Round(hi) + math.Pow(10, -float64(7+rng.Intn(6)))*float64(rng.Intn(3)-1)
+			}
 			base := []float64{2, 10, math.E, 1.5, 0.5}[rng.Intn(5)]
 			fmt.Fprintf(w, "vec logspace %s %s %d %s\n", fmtF(lo), fmtF(hi), rng.Intn(20), fmtF(base))
 		case 3:
 			var parts []string
 			for i := 0; i < rng.Intn(5); i++ {
 				parts = append(parts, fmtFs(smpValues(rng, rng.Intn(6), false)))
+				if rng.Intn(4) == 0 {
+					parts = append(parts, parts[len(parts)-1])
+				}
 			}
 			fmt.Fprintf(w, "vec concat [%s]\n", strings.Join(parts, ","))
 		default:
